@@ -29,6 +29,20 @@ PROPS = {
         'assumptions': [],
         'level': 'proof',
     },
+    'C10': {
+        'modules': ['contracts.c10_api', 'contracts.c10_props'],
+        'standins': ['py_api'],
+        'trusted': PYVC_TRUST + ['CPython list/dict operation semantics as modelled in contracts/absobj.py'],
+        'assumptions': ['histories: every public operation preserves wf_msg and refines the model => every finite history does (induction)'],
+        'level': 'proof',
+    },
+    'C11': {
+        'modules': ['contracts.c11_copy'],
+        'standins': ['py_api'],
+        'trusted': PYVC_TRUST + ['CPython list/dict operation semantics as modelled in contracts/absobj.py'],
+        'assumptions': ['nested copy_from calls by contract (induction over the nesting depth of the schema)'],
+        'level': 'proof',
+    },
     'C19': {
         'modules': ['contracts.c01_encode', 'contracts.c01_arrays', 'contracts.c01_wrappers', 'contracts.c04_runtime'],
         'standins': ['py_codec'],
